@@ -14,12 +14,31 @@ Open Scope N_scope.
 (* ---- labels ---- *)
 Inductive qlabel16 :=
 | L16 (l : qlabel)
-| LBuildShut (r : req) (ops : list top).
+| LBuildShut (r : req) (ops : list top)
+| LBuildClosed (size : N).
   (* AllocateAndBuildMessage whose callback is still running (buildersLk held, done already tested by
      buildMessage) when Shutdown() closes done.  A goroutine parked at its select wakes on done alone
      (signalWork comes after the callback), blocks on buildersLk in extractOutgoingMessage, then drains
      everything including the builder just written, and exits.  A goroutine inside a network call notices
      nothing until the call returns. *)
+
+(* AllocateAndBuildMessage whose callback finds its response stream closed (responseassembler.go execute tests
+   isClosed before reserving and again inside the callback; a failure of an earlier message of the request may
+   close the stream in between, in particular while the reservation waits in the allocator): buildMessage
+   has already appended a new builder if one was due, the callback adds nothing — no operation, no response
+   stream, no subscriber — and the whole reservation is returned. *)
+Definition do_touch (s : mq) (size : N) : mq :=
+  if done s then s
+  else
+    let need_new := match last_opt (builders s) with
+                    | None => true
+                    | Some last => if size =? 0 then false else max_block_size <? b_blk last + size
+                    end in
+    let bs := if need_new then builders s ++ [bld_new (next_topic s)] else builders s in
+    let nt := if need_new then next_topic s + 1 else next_topic s in
+    let wk := match last_opt bs with Some l => if bld_empty l then work s else true | None => work s end in
+    {| builders := bs; next_topic := nt; alloc := alloc s; has_sender := has_sender s; work := wk;
+       done := done s; ph := ph s; closed := closed s; miss := miss s |}.
 
 Definition set_done (s : mq) : mq :=
   set_fields s (builders s) (alloc s) (has_sender s) (work s) true (ph s) (closed s).
@@ -36,12 +55,18 @@ Definition qstep16 (s : mq) (l : qlabel16) : mq * qout :=
           (s2, out_app o o2)
       | _ => (set_done s1, o)
       end
+  | LBuildClosed size =>
+      let s1 := do_touch s size in
+      match ph s1 with
+      | PIdle => run_loop (loop_fuel s1) s1 out_nil
+      | _ => (s1, out_nil)
+      end
   end.
 
 Definition qstep16_h (s : mq) (l : qlabel16) (hint : bool) : mq * qout :=
   match l with
   | L16 l => qstep_h s l hint
-  | LBuildShut _ _ => qstep16 s l
+  | _ => qstep16 s l
   end.
 
 (* ---- attachments ---- *)
